@@ -9,4 +9,5 @@ Tol_detrend_abs      == -10000  \* plane removal, absolute on O(1) images (measu
 Tol_center_mpx       == 1000    \* centre finder: |found-true| <= 1 px, in milli-pixels (measured <= 40)
 Tol_voxel_fine       == -1500   \* voxel volume vs analytic at spacing r/20: 3e-2 (measured <= 8e-3)
 Tol_overlap          == -12000  \* largest_overlap vs rsum - sqrt(d2)
+Tol_prior_integral   == -8000   \* quadrature of prob over the support vs 1 (measured <= 1e-10)
 =============================================================================
